@@ -434,6 +434,40 @@ def make_claim(scaf_name, n, mode, facet, twin=False):
     return 'claim_%s_%s%d_%s%s' % (facet, scaf_name, n, mode, '_twin' if twin else ''), cell
 
 
+def make_table_step(n, kmax, twin=False):
+    """Inductive step of the index table behind every filtered / converted view (_RepeatedValueWrapperUpdateHandler.handle_splice):
+    from ANY raw list of n items (kinds symbolic) whose table satisfies the invariant `table == positions of the items of the
+    view's type`, ANY notification (l <= r <= n symbolic, k <= kmax replacement items of symbolic kinds) leaves a table that
+    satisfies the invariant for the list after the splice.  With the callers passing normalised (l, r) - which the document-level
+    cells check - this covers notification histories of any length."""
+    from autobean_refactor.models.internal import value_properties as VP
+
+    class A:        # the view's type
+        pass
+
+    class B:        # any other item (comment, other node type)
+        pass
+
+    def cell(k0: bool, k1: bool, k2: bool, k3: bool, k4: bool, k5: bool, l: int, r: int, k: int, v0: bool, v1: bool, v2: bool) -> None:
+        assert 0 <= l <= r <= n and 0 <= k <= kmax
+        kinds = [bool(x) for x in (k0, k1, k2, k3, k4, k5)[:n]]
+        k = pick(k, 0, kmax)
+        vkinds = [bool(x) for x in (v0, v1, v2)[:k]]
+        l = pick(l, 0, n)
+        r = pick(r, l, n)
+        table = [i for i, x in enumerate(kinds) if x]
+        h = VP._RepeatedValueWrapperUpdateHandler(None, A, table)
+        values = [A() if x else B() for x in vkinds]
+        h.handle_splice(l, r, values)
+        if twin:
+            raise Fail('twin reached the assertion point')
+        after = kinds[:l] + vkinds + kinds[r:]
+        want = [i for i, x in enumerate(after) if x]
+        check(table == want, 'index table after handle_splice(%d, %d, %d values):' % (l, r, k), table, 'but the items of the view type are at', want, 'kinds before', kinds, 'inserted', vkinds)
+
+    return 'table_step_n%d_k%d%s' % (n, kmax, '_twin' if twin else ''), cell
+
+
 CELLS = {}
 
 
@@ -487,6 +521,10 @@ for _scaf in ('txn_postings', 'txn_meta', 'posting_meta', 'file_dirs'):
         for _mode in ('cycle', 'late'):
             for _facet, _props in (('views', {'C10': Q if _n in (2, 4) else T, 'C04': Q if _n == 4 else T, 'C14': Q if _n == 4 else T}),):
                 _reg(make_claim(_scaf, _n, _mode, _facet), _props, 300, 'claim', '%s with %d items: %s of interleaving comments with all views alive' % (_scaf, _n, _mode), cost=5)
+for _n in (0, 1, 2, 3, 4, 5, 6):
+    _reg(make_table_step(_n, 2), {'C10': Q if _n <= 5 else T}, 600, 'table-step', 'index table of the filtered views: ANY list of %d items (symbolic kinds) satisfying the invariant, ANY splice notification 0 <= l <= r <= n with <= 2 replacement items of symbolic kinds' % _n, cost=2 ** _n * 10)
+    _reg(make_table_step(_n, 3), {'C10': T}, 1500, 'table-step', 'as above with <= 3 replacement items, n = %d' % _n)
+_reg(make_table_step(3, 2, twin=True), {'C10': Q}, 120, 'table-step', 'vacuity twin', twin=True, cost=1)
 for _facet, _prop in FACET_PROP.items():
     _reg(make_view('note_tags', 3, 0, 'setitem', _facet, twin=True), {_prop: Q}, 120, 'view/' + _facet, 'vacuity twin', twin=True, cost=1)
 _reg(make_claim('txn_postings', 4, 'cycle', 'views', twin=True), {'C10': Q, 'C04': Q, 'C14': Q}, 120, 'claim', 'vacuity twin', twin=True, cost=1)
